@@ -188,6 +188,79 @@ func (e *Exec) conOf(fr *frame, fn *ssa.Function) *Contract {
 	return nil
 }
 
+// learnFacts records the equalities `term == constant` (and plain boolean atoms) among the conjuncts
+// of a precondition of the function under verification. They are pure terms over the entry state, so
+// they hold everywhere; fold uses them to decide branch conditions syntactically, which prunes the
+// arms of a big switch that the precondition excludes (case contracts).
+func (e *Exec) learnFacts(t *smt.Term) {
+	if e.facts == nil {
+		e.facts = map[*smt.Term]*smt.Term{}
+	}
+	learn := func(a *smt.Term, v *smt.Term) bool {
+		if a.HasBound || a.Op == "true" || a.Op == "false" {
+			return false
+		}
+		if _, ok := e.facts[a]; ok {
+			return false
+		}
+		e.facts[a] = v
+		if v == smt.True && a.Op == "=" && len(a.Args) == 2 {
+			if a.Args[1].IsConst() && !a.Args[0].IsConst() {
+				e.facts[a.Args[0]] = a.Args[1]
+			} else if a.Args[0].IsConst() && !a.Args[1].IsConst() {
+				e.facts[a.Args[1]] = a.Args[0]
+			}
+		}
+		return true
+	}
+	// unit propagation: top-level literals become facts, are substituted, and may expose new ones
+	cur := smt.Subst(t, e.facts)
+	for iter := 0; iter < 32; iter++ {
+		changed := false
+		var conj []*smt.Term
+		if cur.Op == "and" {
+			conj = cur.Args
+		} else {
+			conj = []*smt.Term{cur}
+		}
+		for _, c := range conj {
+			switch {
+			case c.Op == "not" && c.Args[0].Op != "and" && c.Args[0].Op != "or" && c.Args[0].Op != "ite":
+				if learn(c.Args[0], smt.False) {
+					changed = true
+				}
+			case c.Op != "and" && c.Op != "or" && c.Op != "not" && c.Op != "ite" && c.S == smt.Bool:
+				if learn(c, smt.True) {
+					changed = true
+				}
+			}
+		}
+		if !changed {
+			break
+		}
+		cur = smt.Subst(cur, e.facts)
+	}
+	if debugFold {
+		fmt.Fprintf(os.Stderr, "facts: %d, residue %s\n", len(e.facts), cur.Short(300))
+	}
+	e.foldMemo = nil
+}
+
+func (e *Exec) fold(t *smt.Term) *smt.Term {
+	if len(e.facts) == 0 {
+		return t
+	}
+	if e.foldMemo == nil {
+		e.foldMemo = map[*smt.Term]*smt.Term{}
+	}
+	if r, ok := e.foldMemo[t]; ok {
+		return r
+	}
+	r := smt.Subst(t, e.facts)
+	e.foldMemo[t] = r
+	return r
+}
+
 // forcedInline: the harness on top names this callee in its inline-calls clause.
 func (e *Exec) forcedInline(name string) bool {
 	if len(e.hstack) == 0 {
@@ -547,6 +620,9 @@ func (e *Exec) verifIntrinsic(fr *frame, st *State, name string, fn *ssa.Functio
 			e.spec = saveSpec
 		} else {
 			st.Assume(args[1])
+			if len(e.hstack) == 1 {
+				e.learnFacts(args[1])
+			}
 		}
 		_ = k
 		return unit
